@@ -106,9 +106,8 @@ SingleOK == Ready => \A r \in Requests : SingleClauses(r)
 \* One pipeline request: the loop as written computes Pipe; each chosen compiler supports the
 \* kind produced by the compilers before it (ChainOK); when the factory gives up at stage i, no
 \* listed engine qualifies for the kind reaching stage i; the judge accepts the Impl answer.
-PipeClauses(fs, cks) ==
-   LET tab == TLCEval(RKTab)
-       i == ImplPipe(reg, prefs, tab, fs, cks)
+PipeClauses(tab, fs, cks) ==
+   LET i == ImplPipe(reg, prefs, tab, fs, cks)
        s == Pipe(reg, prefs, tab, fs, cks)
    IN /\ i.k = s.k /\ i.stages = s.stages /\ i.at = s.at
       /\ i.k \in {"pipeline", "none"} => ChainOK(reg, tab, fs, cks, i.stages)
@@ -119,5 +118,5 @@ PipeClauses(fs, cks) ==
                          /\ \A j \in DOMAIN prefs : ~Qualifies(reg[prefs[j]], CompReq(s.kinds[i.at], cks[i.at]))
                          /\ PipelineNoSuitableClause(s)[1] = ""
       /\ i.k = "rk-raises" => PipelineNoSuitableClause(s)[1] = "pipeline-resulting-kind-raises"
-PipeOK == Ready => \A fs \in F2, cks \in Pipelines : PipeClauses(fs, cks)
+PipeOK == Ready => LET tab == TLCEval(RKTab) IN \A fs \in F2, cks \in Pipelines : PipeClauses(tab, fs, cks)
 =============================================================================
